@@ -63,6 +63,20 @@ def cleanupActs (levels : List (List Item)) (c : ErrClass) : List Act :=
 
 def isSlotRelease (a : Act) : Bool := decide (a = .releaseTask) || decide (a = .finishTask)
 
+/-- clean-up statements that drop the request's tracker records -/
+def dropsTrackerAct (a : Act) : Bool :=
+  decide (a = .releaseTask) || decide (a = .clearRequest) || decide (a = .closeResponse)
+
+/-- the error classes a traversal of this model can end with -/
+def relClasses : List ErrClass := [.none, .ordinary, .panicked]
+
+/-- decidable check of a clean-up path and traverser frame: the frame hands a panic to writeDone, and
+for each of these classes the path calls TaskDone exactly once and drops the tracker records -/
+def releasesAll (levels : List (List Item)) (trav : List TravAct) : Bool :=
+  trav.contains .writeDoneOnPanic &&
+  relClasses.all (fun c =>
+    decide ((cleanupActs levels c).countP isSlotRelease = 1) && (cleanupActs levels c).any dropsTrackerAct)
+
 /-- `terminateRequest` is skipped for a paused request -/
 def dropsTable (c : ErrClass) : Bool := decide (c ≠ .paused)
 
@@ -86,6 +100,7 @@ structure RReq where
   cls       : ErrClass
   delivered : Bool                 -- error / terminal status handed to the client / the wire
   lock      : Bool                 -- state mutex held with nobody left to release it
+  released  : Nat                  -- how often TaskDone has been called for this task
   deriving DecidableEq, Repr
 
 structure Cfg where
@@ -138,12 +153,13 @@ def applyAct (s : RSys) (i : Nat) (r : RReq) : Act → RSys × RReq
   | .releaseTask =>
     ({ s with busy := s.busy - 1, active := s.active.erase r.peer,
               table := if dropsTable r.cls then s.table.erase i else s.table,
-              tracker := s.tracker.erase i }, r)
+              tracker := s.tracker.erase i }, { r with released := r.released + 1 })
   | .clearRequest => ({ s with tracker := s.tracker.erase i }, r)
   | .closeResponse => ({ s with tracker := s.tracker.erase i }, { r with delivered := true })
   | .finishTask =>
     ({ s with busy := s.busy - 1, active := s.active.erase r.peer,
-              table := if dropsTable r.cls then s.table.erase i else s.table }, r)
+              table := if dropsTable r.cls then s.table.erase i else s.table },
+     { r with released := r.released + 1 })
 
 def canPop (cfg : Cfg) (s : RSys) (r : RReq) : Bool :=
   decide (s.busy < cfg.workers) && (decide (cfg.cap = 0) || decide (s.active.count r.peer < cfg.cap))
@@ -229,24 +245,39 @@ def cfgOf (sd : Side) (workers cap : Nat) : Cfg :=
 def onNode (sd : Side) (cs : List Call) : List Call := cs.filter (fun c => sideEq c.side sd)
 
 structure ResPrediction where
-  late : Bool      -- the request submitted last (same peer, one worker, one task per peer) completes
-  leak : Bool      -- something is still held when nothing can move any more
+  late    : Bool      -- the request submitted last completes
+  leak    : Bool      -- something is still held when nothing can move any more
+  tasks   : Nat       -- task-queue entries left (busy workers + tasks never started)
+  table   : Nat       -- request / response table entries left
+  tracker : Nat       -- tracker records left (not observable on the real nodes)
 
 /-- target, concurrent sibling and late request, all of the same peer, on the node the fault is
-injected on, with one worker and at most one task per peer; round-robin schedule -/
-def predictRes (sd : Side) (kd : Kind) (k n pre : Nat) : ResPrediction :=
+injected on, run to quiescence under a round-robin schedule with the given clean-up path.
+`tight`: one worker (responder: also at most one task per peer); otherwise six workers, no cap. -/
+def predictResWith (levels : List (List Item)) (trav : List TravAct)
+    (sd : Side) (kd : Kind) (k n pre : Nat) (tight : Bool) : ResPrediction :=
   let mk (cs : List Call) : RReq :=
     { peer := 0, script := onNode sd cs, phase := .queued, out := .running, cls := .none,
-      delivered := false, lock := false }
+      delivered := false, lock := false, released := 0 }
   let target := mk (scriptWith table n pre (some (sd, kd, k)))
   let sib := mk (scriptWith table n 0 none)
-  let cfg := cfgOf sd 1 1
+  let cfg : Cfg :=
+    { workers := if tight then 1 else 6,
+      cap := if tight && sideEq sd .responder then 1 else 0,
+      levels := levels, trav := trav, fr := framesOf table }
   let rounds := 3 * (target.script.length + sib.script.length + 12)
   let s := run cfg (init [target, sib, sib]) (roundRobin 3 rounds)
   let late := match s.reqs[2]? with
     | some r => decide (r.phase = .done) && decide (r.out = .completed)
     | none => false
+  let pending := (s.reqs.filter (fun r => decide (r.phase = .queued))).length
   { late := !s.crashed && late,
-    leak := s.crashed || decide (s.busy ≠ 0) || !s.active.isEmpty || !s.table.isEmpty || !s.tracker.isEmpty }
+    leak := s.crashed || decide (s.busy ≠ 0) || !s.active.isEmpty || !s.table.isEmpty || !s.tracker.isEmpty
+            || decide (pending ≠ 0),
+    tasks := s.busy + pending, table := s.table.length, tracker := s.tracker.length }
+
+/-- the prediction for the clean-up path and traverser frame generated from the current source -/
+def predictRes (sd : Side) (kd : Kind) (k n pre : Nat) (tight : Bool) : ResPrediction :=
+  predictResWith (levelsOf sd) travFrame sd kd k n pre tight
 
 end GS.Panics.Res
